@@ -28,11 +28,14 @@ EVERY_TYPE_MACROS = {
     'me': ['e{^_}'],
     'many': ['AnyDelimited'],
     'manyo': ['AnyDelimitedOptional', 'm'],
+    'mom': ['m', 'o'], 'mrp': ['r()', 'm'], 'mdp': ['d()'], 'mtb': ['t!', 'm'], 'mvm': ['m', 'v'],
 }
 EVERY_TYPE_ENVS = {
     'eenv': ['[', '{'],
     'emath': [],         # math-mode body
     'eplain': [],
+    'e2-x:y': [],         # digits, dash and colon are allowed in environment names
+    'esd': ['s', 'd()', 'm'],
 }
 EVERY_TYPE_SPECIALS = {
     '~': [],
